@@ -1,0 +1,44 @@
+// SPDX-FileCopyrightText: 2026 The Pion community <https://pion.ly>
+// SPDX-License-Identifier: MIT
+
+//go:build verif
+
+package sctp
+
+// Lemma procedures: small real Go functions whose bodies call the functions under contract.
+// Their postconditions (in verif_contracts.go) are the lemma statements; the generator verifies
+// each body modularly, i.e. against the callees' contracts only. Never called by the package.
+
+func verifLemmaCmp32(a, b uint32) (lt, lte, eq, gte, gt bool) {
+	return sna32LT(a, b), sna32LTE(a, b), sna32EQ(a, b), sna32GTE(a, b), sna32GT(a, b)
+}
+
+func verifLemmaCmp16(a, b uint16) (lt, lte, eq, gte, gt bool) {
+	return sna16LT(a, b), sna16LTE(a, b), sna16EQ(a, b), sna16GTE(a, b), sna16GT(a, b)
+}
+
+func verifLemmaDual32(a, b uint32) (ltab, gtba bool) { return sna32LT(a, b), sna32GT(b, a) }
+
+func verifLemmaDual16(a, b uint16) (ltab, gtba bool) { return sna16LT(a, b), sna16GT(b, a) }
+
+func verifLemmaShift32(a, b, k uint32) (lt0, lt1, gt0, gt1, lte0, lte1, gte0, gte1 bool) {
+	return sna32LT(a, b), sna32LT(a+k, b+k), sna32GT(a, b), sna32GT(a+k, b+k),
+		sna32LTE(a, b), sna32LTE(a+k, b+k), sna32GTE(a, b), sna32GTE(a+k, b+k)
+}
+
+func verifLemmaShift16(a, b, k uint16) (lt0, lt1, gt0, gt1, lte0, lte1, gte0, gte1 bool) {
+	return sna16LT(a, b), sna16LT(a+k, b+k), sna16GT(a, b), sna16GT(a+k, b+k),
+		sna16LTE(a, b), sna16LTE(a+k, b+k), sna16GTE(a, b), sna16GTE(a+k, b+k)
+}
+
+func verifLemmaSucc32(a uint32) (lt, gt bool) { return sna32LT(a, a+1), sna32GT(a+1, a) }
+
+func verifLemmaSucc16(a uint16) (lt, gt bool) { return sna16LT(a, a+1), sna16GT(a+1, a) }
+
+func verifLemmaTrans32(a, b, c uint32) (ab, bc, ac bool) {
+	return sna32LT(a, b), sna32LT(b, c), sna32LT(a, c)
+}
+
+func verifLemmaTrans16(a, b, c uint16) (ab, bc, ac bool) {
+	return sna16LT(a, b), sna16LT(b, c), sna16LT(a, c)
+}
